@@ -70,6 +70,9 @@ type rtWorld struct {
 	clients map[string]*rtClient
 	holds   map[string]bool   // client ids whose acknowledgements are withheld
 	recvMax map[string]uint16 // Receive Maximum sent in CONNECT (MQTT 5)
+	maxPkt  map[string]uint32 // Maximum Packet Size sent in CONNECT (MQTT 5)
+	mkBroker func(wbuf int) *broker.B
+	dropped [][2]string // (client, payload) of every PublishDropped event of the last step
 	mu      sync.Mutex
 	inline  []rtInlineEv
 	out     *sx.Out
@@ -107,10 +110,23 @@ func newWorld(out *sx.Out, maxqos byte, ravail bool, deny [][2]string) *rtWorld 
 	acl := func(cl *mqtt.Client, topic string, write bool) bool {
 		return write || !denySet[[2]string{cl.ID, topic}]
 	}
-	w := &rtWorld{clients: map[string]*rtClient{}, holds: map[string]bool{}, recvMax: map[string]uint16{}, out: out}
-	w.b = broker.New(broker.Opts{Caps: caps, InlineClient: true, Auth: broker.AllowAuth, ACL: acl})
+	w := &rtWorld{clients: map[string]*rtClient{}, holds: map[string]bool{}, recvMax: map[string]uint16{}, maxPkt: map[string]uint32{}, out: out}
+	w.mkBroker = func(wbuf int) *broker.B {
+		return broker.New(broker.Opts{Caps: caps, InlineClient: true, Auth: broker.AllowAuth, ACL: acl, WriteBufferSize: wbuf})
+	}
+	w.b = w.mkBroker(0)
 	w.cfg = sx.L{sx.N(uint64(maxqos)), sx.Bool(ravail), denySx}
 	return w
+}
+
+// rebuild replaces the broker by a fresh one with the same capabilities (before any client connects: another
+// write buffer size; later: a restart, see eng_route_restart.go).
+func (w *rtWorld) rebuild(wbuf int) {
+	w.b.Shutdown()
+	w.b = w.mkBroker(wbuf)
+	for _, c := range w.clients {
+		c.conn = nil
+	}
 }
 
 // settle acknowledges every QoS > 0 exchange until nothing is left to answer and returns, per client
@@ -165,9 +181,11 @@ func (w *rtWorld) settle() (map[string][]packets.Packet, []byte, []string) {
 		}
 	}
 	var drops []string
+	w.dropped = nil
 	for _, e := range w.b.Rec.Drain() {
 		if e.Name == "PublishDropped" || e.Name == "PacketIDExhausted" {
 			drops = append(drops, e.Client)
+			w.dropped = append(w.dropped, [2]string{e.Client, string(e.Pk.Payload)})
 		}
 	}
 	if w.b.Hung {
@@ -241,6 +259,9 @@ func (w *rtWorld) connect(id string, ver byte, clean, persist, rpi0 bool) {
 	}
 	if rm := w.recvMax[id]; rm > 0 && ver == 5 {
 		pk.Properties.ReceiveMaximum = rm
+	}
+	if mp := w.maxPkt[id]; mp > 0 && ver == 5 {
+		pk.Properties.MaximumPacketSize = mp
 	}
 	c := w.b.Connect("10.0.0.1:1", pk)
 	w.clients[id] = &rtClient{id: id, ver: ver, conn: c, nextPid: 1, hold: w.holds[id], qosOf: map[uint16]byte{}}
@@ -381,6 +402,20 @@ func engRoute(seed int64, tier string, args []string, out *sx.Out) {
 	rng := rand.New(rand.NewSource(seed))
 	if mode == "c04" {
 		rtProducts(rng, tier, out)
+		return
+	}
+	if mode == "c03w" {
+		n := 150
+		if tier == "thorough" {
+			n = 5000
+		}
+		for h := 0; h < n; h++ {
+			rtBurstHistory(rng, h, out)
+		}
+		return
+	}
+	if mode == "c04r" {
+		rtRestartStream(rng, tier, out)
 		return
 	}
 	if mode == "c06t" {
